@@ -663,6 +663,7 @@ type deferred struct {
 }
 
 type frame struct {
+	joinPaths []string // return conditions of the inlined call just executed (covering case split for the next cut obligations)
 	closureBinds []Val // bindings of the closure being called by contract (set by callFunc for applyContract)
 	vc         *VC
 	fn         *ssa.Function
